@@ -165,6 +165,7 @@ type SpanFile struct {
 	freeMap        freeMap // Change from freeList to freeMap
 	sequenceNumber uint32
 	fileMutex      sync.Mutex
+	readOnly       bool
 }
 
 type FreeSpan struct {
@@ -268,6 +269,7 @@ func OpenFile(filename string, mode FileMode) (*SpanFile, error) {
 		freeMap:        freeMap{freeSpaces: []space{}}, // Initialize freeMap
 		sequenceNumber: 0,
 		fileName:       filename,
+		readOnly:       mode == ReadOnly,
 	}
 
 	err = db.scanFile()
@@ -336,8 +338,16 @@ func (db *SpanFile) scanFile() error {
 
 			existingSequence, exists := sequences[span.RecordID]
 			if !exists || span.SequenceNumber > existingSequence {
+				if exists {
+					// An interrupted overwrite left the older version active.
+					if err := db.freeSuperseded(db.index[span.RecordID]); err != nil {
+						return err
+					}
+				}
 				sequences[span.RecordID] = span.SequenceNumber
 				db.index[span.RecordID] = uint64(offset)
+			} else if err := db.freeSuperseded(uint64(offset)); err != nil {
+				return err
 			}
 		} else if magicNumber == freeMagic {
 			SpanLog("FREE: span:%v-%v/%v", offset, offset+int(length), length)
@@ -353,6 +363,24 @@ func (db *SpanFile) scanFile() error {
 	db.addFreeSpan(uint64(offset), uint64(fileSize-offset))
 
 	db.sequenceNumber = highestSeqNum + 1
+	return nil
+}
+
+// freeSuperseded releases an active span that a newer version of the same
+// record has replaced. A read-only file is left untouched; the index already
+// ignores the span.
+func (db *SpanFile) freeSuperseded(offset uint64) error {
+	if db.readOnly {
+		return nil
+	}
+	length, err := db.getSpanLength(int(offset))
+	if err != nil {
+		return err
+	}
+	if err := db.markSpanAsFreed(offset); err != nil {
+		return err
+	}
+	db.addFreeSpan(offset, length)
 	return nil
 }
 
